@@ -37,7 +37,19 @@ type rscript struct {
 }
 
 func (g *gen) makeScript() rscript {
-	s := rscript{version: 2 + g.r.Intn(2), seed: g.r.Int63(), mutation: g.r.Intn(22)}
+	s := rscript{version: 2 + g.r.Intn(2), seed: g.r.Int63(), mutation: g.r.Intn(25)}
+	// the kinds that need a particular version or moment come round regularly, whatever the dice say
+	g.dist["reject:scripts"]++
+	switch g.dist["reject:scripts"] % 16 {
+	case 3:
+		s.mutation, s.version = 24, 3
+	case 7:
+		s.mutation = 22
+	case 11:
+		s.mutation, s.version = 23, 3
+	case 15:
+		s.mutation, s.version = 6, 3
+	}
 	base := 2
 	if s.version == 3 {
 		base = 4
@@ -81,7 +93,10 @@ func (g *gen) makeScript() rscript {
 		s.injectAt = 1 + g.r.Intn(14) // during the key exchange
 	}
 	s.target = []string{"A", "B"}[g.r.Intn(2)]
-	if s.mutation >= 16 && s.mutation != 19 {
+	if s.mutation == 22 || s.mutation == 23 {
+		s.injectAt = g.r.Intn(2) // before the conversation has heard anything of its peer (or just the query)
+	}
+	if s.mutation >= 16 && s.mutation != 19 && s.mutation != 22 && s.mutation != 23 {
 		// needs a data message that has not been delivered yet: just before one of the two final deliveries
 		if g.r.Intn(2) == 0 {
 			s.injectAt, s.target = len(s.steps)-5, "B"
@@ -212,6 +227,47 @@ func (g *gen) craftInjection(sc rscript, pending, seen, sentByTarget [][]byte, t
 				if len(bin) > 8 {
 					bin[len(bin)-1] ^= 1
 					return encodeWire(bin), "other-dhkey-while-awaiting-sig"
+				}
+			}
+		}
+		return nil, ""
+	case 22: // a well-formed key exchange message nobody asked for (a D-H Key, Reveal Signature or Signature
+		// message of some other instance / of either version) while no exchange is under way: it is
+		// ignored - no error - and must leave no trace either
+		if ts.AkeState != 0 || ts.MsgState != 0 {
+			return nil, ""
+		}
+		t := []byte{0x0a, 0x11, 0x12}[g.r.Intn(3)]
+		v := byte(2 + g.r.Intn(2))
+		hdr := []byte{0, v, t}
+		if v == 3 {
+			st := 0x777 + uint32(g.r.Intn(1000))
+			hdr = append(hdr, byte(st>>24), byte(st>>16), byte(st>>8), byte(st), 0, 0, 0, 0)
+		}
+		val := g.bytesN(192)
+		val[0] &= 0x7f
+		body := otr3.AppendData(nil, val)
+		if t != 0x0a {
+			body = append(otr3.AppendData(nil, g.bytesN(16)), otr3.AppendData(nil, g.bytesN(40))...)
+			body = append(body, g.bytesN(20)...)
+		}
+		return encodeWire(append(hdr, body...)), fmt.Sprintf("stray-ake-%x-v%d-while-idle", t, v)
+	case 23: // traffic of a foreign session (neither tag is ours or our peer's) before the peer instance is known
+		if sc.version != 3 || ts.TheirTag != 0 {
+			return nil, ""
+		}
+		return tags(0x777+uint32(g.r.Intn(1000)), ts.OurTag+1+uint32(g.r.Intn(1000))), "foreign-session-before-binding"
+	case 24: // a genuine, not yet delivered OTRv3 data message with the receiver instance tag set to zero
+		// ("any instance"): the tag filter lets it through, the authenticator covers the header
+		if sc.version != 3 {
+			return nil, ""
+		}
+		for _, m := range pending {
+			if isDataWire(m) {
+				bin := decodeWire(m)
+				if len(bin) > 11 {
+					copy(bin[7:11], []byte{0, 0, 0, 0})
+					return encodeWire(bin), "receiver-tag-zeroed"
 				}
 			}
 		}
@@ -435,7 +491,14 @@ func (g *gen) runScript(w *world, sc rscript, inject bool) (obs []string, injInf
 							olog.viol("C02", "reencoded-message-accepted", injInfo+" (target state change: "+lastInjectionEffect+")")
 						}
 					}
-					if strings.Contains(what, "-tag") {
+					if what == "receiver-tag-zeroed" {
+						// the header is part of what the authenticator covers: a message whose receiver tag was
+						// changed in transit is not the message the peer authenticated
+						olog.ok("C02")
+						if plain != nil {
+							olog.viol("C02", "tampered-delivered", injInfo)
+						}
+					} else if strings.Contains(what, "-tag") {
 						olog.ok("C15")
 						if plain != nil || len(ts) > 0 && !rejected {
 							olog.viol("C15", "foreign-instance-acted-upon", injInfo)
